@@ -68,3 +68,9 @@ class Engine:
     def shrink(self, scenario: dict, violation: dict | None = None):
         """Yield strictly simpler candidate scenarios, most aggressive first."""
         return iter(())
+
+    def counterfactual(self, name: str, scenario: dict) -> dict:
+        """Return the scenario with the trigger of known finding ``name`` neutralised
+        (used to attribute violation records to a recorded finding: if the neutralised
+        scenario passes, the recorded defect was the only cause)."""
+        raise NotImplementedError(name)
